@@ -53,6 +53,14 @@ type crashSpec struct {
 	funcs map[string]bool
 }
 
+type scale struct{ name, file, old, new string }
+
+var scales = []scale{
+	{"memory-compaction-min", "internal/queue/memory.go", "len(s.order) < 1024", "len(s.order) < verifCompactMin"},
+	{"memory-compaction-factor", "internal/queue/memory.go", "len(s.order) <= 4*len(s.items)", "len(s.order) <= verifCompactFactor*len(s.items)"},
+}
+var scaled = map[string]bool{}
+
 func main() {
 	repo := flag.String("repo", "/repo", "repository root")
 	verif := flag.String("verif", "/verif", "verif root")
@@ -107,6 +115,21 @@ func main() {
 			}
 		}
 		newSrc, changed := rewriteFile(rel, src, rw, crashByFile[rel], seenCrash)
+		// scaled-down thresholds: a literal threshold no bounded history can reach is replaced by a package variable
+		// (declared in export/queue with the literal's value as default) that a harness may lower. When the expression
+		// is not found (the code changed) nothing is replaced and the harness is told so.
+		for _, sc := range scales {
+			if sc.file != rel {
+				continue
+			}
+			if bytes.Contains(newSrc, []byte(sc.old)) {
+				newSrc = bytes.Replace(newSrc, []byte(sc.old), []byte(sc.new), 1)
+				changed = true
+				scaled[sc.name] = true
+			} else {
+				fmt.Fprintf(os.Stderr, "verifgen: scale %s: expression %q not found in %s, left unscaled\n", sc.name, sc.old, rel)
+			}
+		}
 		if !changed {
 			return
 		}
@@ -173,6 +196,24 @@ func main() {
 				}
 			}
 		}
+	}
+
+	// 3b. which scaled thresholds are live in this build
+	{
+		var names []string
+		for n := range scaled {
+			names = append(names, n)
+		}
+		sort.Strings(names)
+		src := "package queue\n\nfunc init() {\n"
+		for _, n := range names {
+			src += fmt.Sprintf("\tverifScaled[%q] = true\n", n)
+		}
+		src += "}\n"
+		dst := filepath.Join(*out, "src", "internal/queue/zz_verif_scaled_gen.go")
+		must(os.MkdirAll(filepath.Dir(dst), 0o755))
+		must(os.WriteFile(dst, []byte(src), 0o644))
+		replace[filepath.Join(*repo, "internal/queue/zz_verif_scaled_gen.go")] = dst
 	}
 
 	// 4. harness packages
